@@ -230,7 +230,7 @@ func seqRound(sc SeqCase) (v kit.Verdict) {
 			s.v.Addf("C15/harness/control-not-writable", "the unlogged twin of message %d cannot be serialised: %v", i, werr)
 		} else if gerr != nil {
 			s.v.Addf("C15/forward/"+sc.Logger+"/"+shape+"/write-error", "message %d of %d: after logging, serialising the message fails: %v (the unlogged twin is written without error)", i, n, gerr)
-		} else if same, class := sameOnWire(want, got, bodyless); !same {
+		} else if same, class := sameOnWire(want, got, bodyless, false); !same {
 			s.v.Addf("C15/forward/"+sc.Logger+"/"+shape+"/"+class, "message %d of %d: forwarded bytes differ from the unlogged twin (%s): %s\nunlogged head: %s\nlogged head:   %s", i, n, class, kit.Diff(want, got), head(want), head(got))
 		}
 	}
